@@ -279,8 +279,59 @@ class C07(Prop):
                 kind = "sanitizer" if ("ERROR: AddressSanitizer" in err or "runtime error" in err or "Assertion" in err) else "crash"
                 ctx.violate(f"rxpath:{kind}:{core.first_frame(err)}", f"receive path aborted ({kind}) on a corrupted M17 transmission: {core.first_err_line(err)}",
                             {"stream": "rxpath", "ops": [ln[:400] + " ..."], "params": p, "stderr": err[-2500:]})
+        self.other_modes_stage(ctx, demod, mod)
         ctx.sample({"op": lines[0][:80], "reply": out[0][:80]})
         ctx.sample({"op": lines[-1], "reply": out[-1]})
+
+    def other_modes_stage(self, ctx, demod, mod):
+        """packet superframes (raw and encapsulated; random content and AX.25 frames with a valid frame check sequence, 1..32 frames, clean and
+        damaged) and BERT transmissions through the WHOLE receive path - demodulator (do_packet_sync / do_bert_sync), frame decoder, and
+        m17-demod's handle_frame / decode_packet / decode_bert - under the sanitizers"""
+        rng = ctx.rng
+        g = decgen.Gen(rng)
+        reached = 0
+        for trial in range(8 if ctx.tier == "quick" else 60):
+            kind = ("pkt_raw", "pkt_enc", "bert", "pkt_raw")[trial % 4]
+            if kind == "bert":
+                samples, _ = demodlib.bert_transmission(ctx, mod, rng.randrange(6, 30), start=rng.randrange(1, 512))
+            else:
+                content = None
+                nfr = rng.choice([1, 2, 5, 12, 32, 33])
+                if trial % 2 == 0:           # a plausible AX.25 UI frame with a valid FCS: the parser runs on what was received
+                    body = ([ord(c) << 1 for c in "APRS  "] + [0x60] + [ord(c) << 1 for c in "N0CALL"] + [0x61, 0x03, 0xF0] + [rng.randrange(32, 127) for _ in range(rng.randrange(0, 300))])
+                    prefix = [0, 16, 0] if kind == "pkt_enc" else []
+                    fcs = x25(prefix + body)
+                    content = bytes(body + [fcs & 0xFF, fcs >> 8])
+                    nfr = (len(content) + 24) // 25
+                samples, _ = demodlib.packet_transmission(ctx, mod, rng, g.rand_lsf(0x0002 if kind == "pkt_raw" else 0x0004), nfr, content=content)
+            s2 = list(samples)
+            if trial >= 4 and trial % 3 == 0:
+                for _ in range(rng.randrange(1, 12)):
+                    i = rng.randrange(len(s2)); n = rng.randrange(1, 2500); k = rng.random()
+                    for j in range(i, min(len(s2), i + n)):
+                        s2[j] = 0 if k < 0.4 else (rng.randrange(-32768, 32768) if k < 0.8 else -s2[j])
+            p = {"gain": rng.choice([500, 1000, 2000]), "dc": rng.randrange(-100, 100), "sigma": rng.choice([0, 0, 100]), "delay": rng.randrange(1000),
+                 "ppm": rng.randrange(-100, 100), "lead": 0, "leadn": 0, "level": 0, "seed": rng.randrange(10 ** 6), "app": 1}
+            if trial < 4:
+                p.update(gain=1000, dc=0, sigma=0, delay=0, ppm=0)
+            ln, rep, rc, err = demodlib.run_rx(ctx, demod, p, s2)
+            ctx.count(("other-modes", kind, trial, tuple(sorted(p.items()))), nontrivial=True)
+            ctx.stat("rx:" + kind)
+            if rc != 0:
+                k2 = "sanitizer" if ("ERROR: AddressSanitizer" in err or "runtime error" in err or "Assertion" in err) else "crash"
+                ctx.violate(f"rxpath:{k2}:{core.first_frame(err)}", f"receive path aborted ({k2}) on a {kind} transmission: {core.first_err_line(err)}",
+                            {"stream": "rxpath", "ops_file": demodlib.save_ops([ln]), "params": p, "stderr": err[-2500:]})
+                continue
+            # was the mode actually reached? (same signal, bare callback)
+            p0 = dict(p); p0["app"] = 0
+            _, rep0, rc0, _ = demodlib.run_rx(ctx, demod, p0, s2)
+            _, frs = demodlib.parse_frames(rep0)
+            got = sum(1 for f in frs if f[0] == ("B" if kind == "bert" else "P"))
+            ctx.stat(f"rx:{kind}:frames-delivered", got)
+            reached += 1 if got else 0
+        ctx.stat("rx:other-modes:runs-that-reached-the-mode", reached)
+        if reached == 0:
+            ctx.notes.append("other-modes stage: no run reached packet/BERT reception (the stage explored nothing)")
 
 
 PROP = C07()
